@@ -36,6 +36,10 @@ PROPS = {
              "Seeded search over histories of prefix-storage calls by 2-4 tenants with adversarial prefixes on one real leveldb Storage over the simulated disk, including injected write errors inside batches, closing a tenant, and clean restarts; after every step the whole raw storage is compared with a sorted-map model. A second population runs tenants concurrently under the seeded scheduler and compares each tenant's view with its own model.",
              "trusted: the sorted-map model; goleveldb runs as shipped over simdisk",
              SIM + "; reference-model comparison after every step, fault injection on the simulated disk"),
+    "C19": P("storeh",
+             "Seeded search over database histories (block writes, MergeAllPermanent, the real merge ticker and temp clean-up on the fake clock, RemoveBlocks) on the real Center/LeveldbPermanent/LeveldbBlockWrite/TempLeveldb stack over goleveldb; after every writer step every read listed in the statement is compared exactly with a model that keeps all committed blocks; concurrent readers under the seeded scheduler must read values the model held between invoke and return and never an older state than one already returned.",
+             "trusted: the committed-blocks model in harness/storeh/dbsys.go; dummy block maps",
+             SIM + "; reference-model comparison at quiescence and interval-based check of concurrent reads"),
 }
 
 NOT_APPLICABLE = {
